@@ -176,6 +176,121 @@ def feature_tests_leg(rep, wd):
     return n
 
 
+OPS_BRIDGE = open("/tmp/pb/ops/lib.rs").read() if False else r'''
+#![allow(unused, non_snake_case, clippy::all)]
+#[diplomat::bridge]
+pub mod ffi {
+    #[diplomat::opaque]
+    pub struct Ver(pub i32);
+    impl Ver {
+        pub fn mk(v: i32) -> Box<Ver> { Box::new(Ver(v)) }
+        pub fn get(&self) -> i32 { self.0 }
+        #[diplomat::attr(auto, comparison)]
+        pub fn cmp(&self, o: &Ver) -> core::cmp::Ordering { self.0.cmp(&o.0) }
+        #[diplomat::attr(auto, add)]
+        pub fn plus(&self, o: &Ver) -> Box<Ver> { Box::new(Ver(self.0.wrapping_add(o.0))) }
+        #[diplomat::attr(auto, sub)]
+        pub fn minus(&self, o: &Ver) -> Box<Ver> { Box::new(Ver(self.0.wrapping_sub(o.0))) }
+        #[diplomat::attr(auto, mul)]
+        pub fn times(&self, o: &Ver) -> Box<Ver> { Box::new(Ver(self.0.wrapping_mul(o.0))) }
+        #[diplomat::attr(auto, div)]
+        pub fn over(&self, o: &Ver) -> Box<Ver> { Box::new(Ver(if o.0 == 0 { 0 } else { self.0.wrapping_div(o.0) })) }
+        #[diplomat::attr(auto, add_assign)]
+        pub fn add_eq(&mut self, o: &Ver) { self.0 = self.0.wrapping_add(o.0) }
+        #[diplomat::attr(auto, sub_assign)]
+        pub fn sub_eq(&mut self, o: &Ver) { self.0 = self.0.wrapping_sub(o.0) }
+        #[diplomat::attr(auto, mul_assign)]
+        pub fn mul_eq(&mut self, o: &Ver) { self.0 = self.0.wrapping_mul(o.0) }
+        #[diplomat::attr(auto, indexer)]
+        pub fn at(&self, i: usize) -> Option<u8> { if i < 3 { Some((self.0 as u8).wrapping_add(i as u8)) } else { None } }
+    }
+    pub struct Pri {
+        pub n: i32,
+    }
+    impl Pri {
+        #[diplomat::attr(auto, comparison)]
+        pub fn cmp(self, o: Pri) -> core::cmp::Ordering { self.n.cmp(&o.n) }
+    }
+    #[diplomat::opaque]
+    pub struct It(pub Vec<u8>, pub usize);
+    impl It {
+        #[diplomat::attr(auto, iterator)]
+        pub fn next(&mut self) -> Option<u8> { let r = self.0.get(self.1).copied(); self.1 += 1; r }
+    }
+    #[diplomat::opaque]
+    pub struct Coll(pub Vec<u8>);
+    impl Coll {
+        pub fn mk(n: u8) -> Box<Coll> { Box::new(Coll((0..n).map(|x| x.wrapping_mul(3)).collect())) }
+        #[diplomat::attr(auto, iterable)]
+        pub fn iter<'a>(&'a self) -> Box<It> { Box::new(It(self.0.clone(), 0)) }
+    }
+}
+'''
+
+
+def operators_leg(rep, wd):
+    """markers that the C++ backend turns into operators (Special.tla: RelHolds, ArithOp): the operator must give what the marked
+    Rust method gives -- all six relational operators from one `comparison` method, +,-,*,/ and the compound assignments,
+    operator[] for `indexer`, range-for over an `iterable`"""
+    t = lib.tlc("special", "MC_Special", "special_ops.cfg", workers=1, coverage=False, timeout=300)
+    lib.tlc_expect_ok(t, "Special: operator laws")
+    rep.add_tlc("Special/ops", t)
+    ops = t.printed["OPS"][0]
+    b = lib.build_bridge("c02_ops", OPS_BRIDGE)
+    if not b["ok"]:
+        rep.violation({"leg": "operators", "what": "bridge with special-method markers does not compile"}, {"stderr": b["stderr"][-3000:]})
+        return 0
+    out = os.path.join(wd, "cpp_ops")
+    tr = lib.run_tool("cpp", os.path.join(b["dir"], "src", "lib.rs"), out)
+    if tr["rc"] != 0:
+        rep.violation({"leg": "operators", "what": "C++ backend failed"}, {"stderr": tr["stderr"][-2000:]})
+        return 0
+    vals = [-2147483647 - 1, -7, -1, 0, 1, 7, 2147483647]
+    L = ['#include <cstdio>\n#include <cstdint>\n#include <vector>\n#include "Ver.hpp"\n#include "Pri.hpp"\n#include "Coll.hpp"\n#include "It.hpp"\n',
+         'static int bad;\n#define CK(c, ...) do { if (!(c)) { bad++; printf("{\\"bad\\":\\"%s\\",\\"a\\":%lld,\\"b\\":%lld}\\n", #c, (long long)A, (long long)B); } } while (0)\n',
+         "static int ord(long long a, long long b) { return a < b ? -1 : (a > b ? 1 : 0); }\n",
+         "int main() {\n    const long long V[] = {%s};\n    for (long long A : V) for (long long B : V) {\n" % ", ".join("%dLL" % v for v in vals),
+         "        auto a = Ver::mk((int32_t)A); auto b = Ver::mk((int32_t)B); int o = ord(A, B); Pri pa{(int32_t)A}; Pri pb{(int32_t)B};\n"]
+    sel = {"lt": "o == -1", "eq": "o == 0", "gt": "o == 1"}
+    for op, row in sorted(ops["rel"].items()):
+        exp = " || ".join("(%s)" % sel[k] for k, v in row.items() if v) or "false"
+        L.append("        CK(((*a) %s (*b)) == (%s));\n        CK((pa %s pb) == (%s));\n" % (op, exp, op, exp))
+    w32 = lambda e: "(int32_t)(uint32_t)((uint32_t)(int32_t)A %s (uint32_t)(int32_t)B)" % e
+    for marker, (cop, rust) in {"add": ("+", "+"), "sub": ("-", "-"), "mul": ("*", "*")}.items():
+        assert ops["arith"][marker] == cop
+        L.append("        CK(((*a) %s (*b))->get() == %s);\n" % (cop, w32(rust)))
+    L.append("        if (B != 0 && !(A == V[0] && B == -1)) CK(((*a) / (*b))->get() == (int32_t)(A / B));\n")
+    for marker, cop in (("add_assign", "+"), ("sub_assign", "-"), ("mul_assign", "*")):
+        assert ops["arith"][marker] == cop + "="
+        L.append("        { auto c = Ver::mk((int32_t)A); (*c) %s= (*b); CK(c->get() == %s); CK(b->get() == (int32_t)B); }\n" % (cop, w32(cop)))
+    L.append("        for (size_t i = 0; i < 5; i++) { auto x = (*a)[i]; CK(x.has_value() == (i < 3)); if (i < 3) CK(*x == (uint8_t)((uint8_t)(int32_t)A + i)); }\n    }\n")
+    L.append("    for (long long A : {0LL, 1LL, 5LL}) { long long B = 0; auto c = Coll::mk((uint8_t)A); std::vector<uint8_t> got; for (auto x : *c) got.push_back(x);\n"
+             "        CK(got.size() == (size_t)A); for (size_t i = 0; i < got.size(); i++) CK(got[i] == (uint8_t)(3 * i)); }\n")
+    L.append('    printf("{\\"checked\\":true,\\"bad\\":%d}\\n", bad);\n    return 0;\n}\n')
+    dp = os.path.join(wd, "driver_ops.cpp")
+    open(dp, "w").write("".join(L))
+    n = 0
+    for std in ("c++17", "c++20"):
+        exe = os.path.join(wd, "driver_ops_" + std.replace("+", "p"))
+        cc = lib.sh(["g++", "-std=" + std, "-g", "-O0", "-fsanitize=address,undefined", "-I", out, dp, b["staticlib"], "-lpthread", "-ldl", "-lm", "-o", exe], timeout=600)
+        if cc.returncode != 0:
+            rep.violation({"leg": "operators", "std": std, "what": "driver using the generated operators does not compile"}, {"stderr": cc.stderr[:3000], "driver": dp})
+            continue
+        p = lib.sh([exe], timeout=120, env={"ASAN_OPTIONS": "detect_leaks=1"})
+        lines = [json.loads(l) for l in p.stdout.splitlines() if l.startswith("{")]
+        fin = [l for l in lines if "checked" in l]
+        if p.returncode != 0 or not fin or "ERROR: AddressSanitizer" in p.stderr or "LeakSanitizer" in p.stderr or "runtime error:" in p.stderr:
+            rep.violation({"leg": "operators", "std": std, "what": "driver crashed or sanitizer report"}, {"stderr": p.stderr[-2500:], "driver": dp})
+            continue
+        for l in lines:
+            if "bad" in l and "checked" not in l:
+                rep.violation({"leg": "operators", "std": std, "what": "operator result differs from the marked Rust method", "check": l["bad"][:60]},
+                              {"a": l["a"], "b": l["b"], "check": l["bad"]})
+        n += len(vals) * len(vals) * 30
+        rep.nontriv("operators|" + std)
+    return n
+
+
 def usable(sig):
     has_utf8 = any(p["k"] == "str" and p["enc"] == "utf8" for p in sig["params"])
     if has_utf8 and (sig["ret"]["k"] in ("opq", "optopq") or (sig["ret"]["k"] == "res" and sig["ret"]["ok"]["k"] == "opq")
@@ -242,6 +357,7 @@ def run(rep, tier):
         e["n"] = k
     total += run_batch(ns_chunk, "ns", namespaced=True)
     rep.extra["namespaced_calls"] = len(ns_chunk)
+    total += operators_leg(rep, wd)
     nft = feature_tests_leg(rep, wd)
     rep.extra["feature_tests_programs_run"] = nft
     total += nft
